@@ -225,7 +225,192 @@ func TestC18(t *testing.T) {
 			col.Case(evd.FP("grpc", key), true)
 		}
 	}
+	// server-streaming level (grpc/faults.go:StreamFaultInjector): the same exact-count
+	// guarantee for the three operations of a stream - its start, every RecvMsg
+	// (checked before the receive without parameters and after it with the received
+	// message's string fields) and every SendMsg - with concurrent streams racing
+	streamCalls := c18Streams(cfg, col, r)
+	col.Add("ev_stream_operations", streamCalls)
 	col.Add("ev_calls", calls)
 	col.Add("ev_trials_with_more_matching_callers_than_count", contended)
 	col.Add("relevant_events", contended)
+}
+
+// fakeServerStream feeds a scripted sequence of client messages to the handler.
+type fakeServerStream struct {
+	grpc.ServerStream
+	ctx   context.Context
+	in    []*pubsubpb.StreamingPullRequest
+	recvd int
+	sent  int
+}
+
+func (f *fakeServerStream) Context() context.Context { return f.ctx }
+func (f *fakeServerStream) RecvMsg(m any) error {
+	if f.recvd >= len(f.in) {
+		return errors.New("fake stream: no more client messages")
+	}
+	dst := m.(*pubsubpb.StreamingPullRequest)
+	dst.Reset()
+	dst.Subscription = f.in[f.recvd].Subscription
+	dst.ClientId = f.in[f.recvd].ClientId
+	dst.AckIds = f.in[f.recvd].AckIds
+	f.recvd++
+	return nil
+}
+func (f *fakeServerStream) SendMsg(m any) error { f.sent++; return nil }
+
+func c18Streams(cfg evd.Config, col *evd.Collector, r *rand.Rand) int64 {
+	const svc = "google.pubsub.v1.Subscriber"
+	subA, subB := "projects/p/subscriptions/a", "projects/p/subscriptions/b"
+	type shape struct {
+		op      string            // faulted operation
+		params  faults.Parameters // of the description
+		matches string            // which calls match: all-starts | no-call | all-recv | recv-of-sub-a | all-send
+	}
+	shapes := []shape{
+		{"StreamingPull", nil, "all-starts"},
+		{"StreamingPull", faults.Parameters{svc: "StreamingPull"}, "all-starts"},
+		{"StreamingPull", faults.Parameters{"subscription": subA}, "no-call"},
+		{"StreamingPull:RecvMsg", faults.Parameters{}, "all-recv"},
+		{"StreamingPull:RecvMsg", faults.Parameters{"subscription": subA}, "recv-of-sub-a"},
+		{"StreamingPull:RecvMsg", faults.Parameters{"google.pubsub.v1.StreamingPullRequest.subscription": subA}, "recv-of-sub-a"},
+		{"StreamingPull:RecvMsg", faults.Parameters{"subscription": subA, "client_id": "c1"}, "recv-of-sub-a"},
+		{"StreamingPull:RecvMsg", faults.Parameters{"subscription": subA, "clientId": "nobody"}, "no-call"},
+		{"StreamingPull:SendMsg", nil, "all-send"},
+		{"StreamingPull:SendMsg", faults.Parameters{svc: "StreamingPull"}, "all-send"},
+		{"StreamingPull:SendMsg", faults.Parameters{"subscription": subA}, "no-call"},
+		{"Pull", nil, "no-call"},
+		{"StreamingPull:Recv", nil, "no-call"},
+	}
+	trials := cfg.N(600, 60000)
+	var ops int64
+	for tr := 0; tr < trials; tr++ {
+		if !cfg.Mine(tr) {
+			continue
+		}
+		set := faults.NewSet(fmt.Sprintf("verif%d", atomic.AddInt64(&setSeq, 1)))
+		inj := mbgrpc.StreamFaultInjector(set)
+		sh := shapes[r.Intn(len(shapes))]
+		n := []int64{0, 1, 2, 5, 20, math.MaxInt64}[r.Intn(6)]
+		var fired int64
+		set.Add(faults.Description{Operation: sh.op, Parameters: sh.params, Count: n,
+			OnFault: func(faults.Description, faults.Parameters) error { atomic.AddInt64(&fired, 1); return &faultErr{0} }})
+		k := []int{1, 2, 8, 24}[r.Intn(4)]
+		recvs, sends := 1+r.Intn(4), r.Intn(4)
+		onA := make([]bool, k)
+		var failedStart, failedRecv, failedSend, startedA, started, otherErr int64
+		var start, done sync.WaitGroup
+		start.Add(1)
+		for i := 0; i < k; i++ {
+			onA[i] = r.Intn(3) != 0
+			done.Add(1)
+			go func(i int) {
+				defer done.Done()
+				sub := subB
+				if onA[i] {
+					sub = subA
+				}
+				fs := &fakeServerStream{ctx: context.Background(), in: []*pubsubpb.StreamingPullRequest{{Subscription: sub, ClientId: "c1"}}}
+				for j := 1; j < recvs+2; j++ {
+					fs.in = append(fs.in, &pubsubpb.StreamingPullRequest{AckIds: []string{"x"}})
+				}
+				start.Wait()
+				err := inj(nil, fs, &grpc.StreamServerInfo{FullMethod: "/" + svc + "/StreamingPull", IsClientStream: true, IsServerStream: true},
+					func(srv any, ss grpc.ServerStream) error {
+						atomic.AddInt64(&started, 1)
+						if onA[i] {
+							atomic.AddInt64(&startedA, 1)
+						}
+						for j := 0; j < recvs; j++ {
+							var m pubsubpb.StreamingPullRequest
+							if err := ss.RecvMsg(&m); err != nil {
+								var fe *faultErr
+								if errors.As(err, &fe) {
+									atomic.AddInt64(&failedRecv, 1)
+								} else {
+									atomic.AddInt64(&otherErr, 1)
+								}
+							}
+						}
+						for j := 0; j < sends; j++ {
+							if err := ss.SendMsg(&pubsubpb.StreamingPullResponse{}); err != nil {
+								var fe *faultErr
+								if errors.As(err, &fe) {
+									atomic.AddInt64(&failedSend, 1)
+								} else {
+									atomic.AddInt64(&otherErr, 1)
+								}
+							}
+						}
+						return nil
+					})
+				if err != nil {
+					var fe *faultErr
+					if errors.As(err, &fe) {
+						atomic.AddInt64(&failedStart, 1)
+					} else {
+						atomic.AddInt64(&otherErr, 1)
+					}
+				}
+			}(i)
+		}
+		start.Done()
+		done.Wait()
+		ops += int64(k) + started*int64(recvs+sends)
+		// the first RecvMsg of a stream on subscription a is the only one carrying it
+		var matching int64
+		switch sh.matches {
+		case "all-starts":
+			matching = int64(k)
+		case "all-recv":
+			matching = started * int64(recvs)
+		case "recv-of-sub-a":
+			matching = startedA
+		case "all-send":
+			matching = started * int64(sends)
+		}
+		want := n
+		if matching < want {
+			want = matching
+		}
+		got := map[string]int64{"start": failedStart, "recv": failedRecv, "send": failedSend}
+		wantBy := map[string]int64{"start": 0, "recv": 0, "send": 0}
+		switch sh.matches {
+		case "all-starts":
+			wantBy["start"] = want
+		case "all-recv", "recv-of-sub-a":
+			wantBy["recv"] = want
+		case "all-send":
+			wantBy["send"] = want
+		}
+		wit := map[string]any{"operation": sh.op, "parameters": sh.params, "count": n, "streams": k, "recv_per_stream": recvs, "send_per_stream": sends, "matching_calls": matching, "failed": got, "on_fault_ran": fired}
+		for _, kind := range []string{"start", "recv", "send"} {
+			switch {
+			case got[kind] > wantBy[kind] && wantBy[kind] == 0 && (sh.matches == "no-call" || got[kind] > 0):
+				col.Violation("stream:non-matching-call-failed:"+kind, fmt.Sprintf("fault for %q %v (count %d): %d %s operations failed although none of them matches", sh.op, sh.params, n, got[kind], kind), wit)
+			case got[kind] != wantBy[kind]:
+				col.Violation("stream:wrong-count:"+kind, fmt.Sprintf("fault for %q %v with count %d, %d matching %s operations on %d concurrent streams: %d failed, exactly %d expected", sh.op, sh.params, n, matching, kind, k, got[kind], wantBy[kind]), wit)
+			}
+		}
+		if fired != want {
+			col.Violation("stream:on-fault-count", fmt.Sprintf("fault for %q with count %d and %d matching operations: OnFault ran %d times", sh.op, n, matching, fired), wit)
+		}
+		if otherErr != 0 {
+			col.Inconclusive(fmt.Sprintf("fake stream returned %d unexpected errors", otherErr))
+		}
+		left := n - want
+		ok := func(cur map[string][]faults.Description) bool {
+			l := cur[sh.op]
+			if left == 0 {
+				return len(l) == 0
+			}
+			return len(l) == 1 && l[0].Count == left
+		}
+		if cur := settledCurrent(set, ok); !ok(cur) {
+			col.Violation("stream:listing-wrong", fmt.Sprintf("after the streams ended the fault for %q lists %v, expected remaining count %d", sh.op, cur[sh.op], left), wit)
+		}
+		col.Case(evd.FP("stream", sh.op, fmt.Sprint(sh.params), n, k, recvs, sends), k > 1 && matching > 0)
+	}
+	return ops
 }
